@@ -513,6 +513,14 @@ class Loops:
         ex.assume(z3.And(k >= 0, k <= ln))
         for lab, e in invariants():
             ex.assume(e)
+        if lspec.get('facts'):
+            env = S.Env(ex, ex.store, dict(ex.names), ex.this_path, {})
+            extra = {'pre': OldNS(env_pre), 'old': OldNS(ex.entry_env) if ex.entry_env else None}
+            extra.update(ex.cur_contract.extra_env if ex.cur_contract else {})
+            extra.update(ex.spec_lets)
+            for e in lspec['facts']:
+                ex.assume(S.spec_eval(e, env, extra))
+                ex.assumed.add('lemma instance: ' + e)
         if ex.decide(k < ln):
             if vsh[0] == 'ref':
                 ex.store[var['id']] = RefVal(cont.index(k))
